@@ -370,11 +370,28 @@ func (s *session) reap(k key) string {
 				return "blocked"
 			}
 		}
+		// The identifier of a reliable tube this side opened stays reserved for 4*RTT after the tube
+		// is closed (reapTube), so that the peer's lastAck retransmissions and other stragglers find
+		// no successor tube.  Timers never fire early, so on the code as it stands the tube cannot be
+		// gone sooner than that after Close was called; `early` is reported when it is gone after
+		// less than ONE such RTT (the estimate shrinks by at most 1/8 per acknowledgement, and fewer
+		// than ten are processed here; a slow machine only makes the measured time longer).
+		own := k.id%2 == s.mux.VerifIDParity()
+		rtt := x.VerifRTT()
+		t0 := time.Now()
 		x.Close()
 		fn := x.VerifSenderFrameNo()
 		if !s.feed(Frame(k.id, "LA", fn, 0, nil)) {
 			return "blocked"
 		}
+		delete(s.held, k)
+		if !s.waitGone(k) {
+			return "stuck"
+		}
+		if own && time.Since(t0) < rtt {
+			return "early"
+		}
+		return "ok"
 	case *tubes.Unreliable:
 		x.Close()
 	}
